@@ -17,7 +17,7 @@ theorem HeadSat.cons (p : UInt8 → Bool) (d : UInt8) (r : Bytes) (h : p d = tru
 
 /-! ### stripPrefix / startsWith -/
 
-theorem stripPrefix_append (p r : Bytes) : stripPrefix p (p ++ r) = some r := by
+theorem stripPrefix_append_rt (p r : Bytes) : stripPrefix p (p ++ r) = some r := by
   induction p with
   | nil => simp [stripPrefix]
   | cons a p ih => simp [stripPrefix, ih]
@@ -162,7 +162,7 @@ theorem pUNN_tail (p : UInt8 → Bool) (a tail : Bytes)
 
 /-! ### consumeNewlines / splitLine -/
 
-theorem consumeNewlines_of_head (bs : Bytes) (h : HeadSat (fun b => !isNewline b) bs) :
+theorem consumeNewlines_of_head_rt (bs : Bytes) (h : HeadSat (fun b => !isNewline b) bs) :
     consumeNewlines bs = bs := by
   unfold consumeNewlines
   cases bs with
@@ -215,7 +215,7 @@ theorem natDigitsRev_digits (f n : Nat) : ∀ b ∈ natDigitsRev f n, isDigit b 
       · simp at hb
       · exact ih _ b hb
 
-theorem natDigitsRev_ne_nil (f n : Nat) : natDigitsRev (f + 1) n ≠ [] := by
+theorem natDigitsRev_ne_nil_rt (f n : Nat) : natDigitsRev (f + 1) n ≠ [] := by
   simp [natDigitsRev]
 
 theorem digitsToNat_snoc (ds : Bytes) (d : UInt8) :
@@ -247,11 +247,11 @@ theorem natToDec_digits (n : Nat) : ∀ b ∈ natToDec n, isDigit b = true := by
   unfold natToDec at hb
   exact natDigitsRev_digits _ _ b (by simpa using hb)
 
-theorem natToDec_ne_nil (n : Nat) : natToDec n ≠ [] := by
+theorem natToDec_ne_nil_rt (n : Nat) : natToDec n ≠ [] := by
   unfold natToDec
   simp [natDigitsRev]
 
-theorem digitsToNat_natToDec (n : Nat) : digitsToNat (natToDec n) = n :=
+theorem digitsToNat_natToDec_rt (n : Nat) : digitsToNat (natToDec n) = n :=
   digitsToNat_natDigitsRev (n + 1) n (by omega)
 
 theorem isDigit_numeric (b : UInt8) (h : isDigit b = true) : isNumericByte b = true := by
@@ -275,11 +275,11 @@ theorem parseUsize_natToDec (n : Nat) (r : Bytes) (hn : n < usizeBound)
   simp only [takeWhile_headStop _ _ r hl hr, dropWhile_headStop _ _ r hl hr]
   have h1 : (natToDec n).isEmpty = false := by
     cases h : natToDec n with
-    | nil => exact absurd h (natToDec_ne_nil n)
+    | nil => exact absurd h (natToDec_ne_nil_rt n)
     | cons _ _ => rfl
   have h2 : (natToDec n).all isDigit = true := by
     simpa [List.all_eq_true] using natToDec_digits n
-  simp [h1, h2, digitsToNat_natToDec, hn]
+  simp [h1, h2, digitsToNat_natToDec_rt, hn]
 
 /-- no number at the front -/
 theorem parseUsize_none (r : Bytes) (hr : ∀ b, r.head? = some b → isNumericByte b = false) :
